@@ -15,6 +15,7 @@ pub fn plan(o: &Opts) -> Vec<GroupSpec> {
       "C04" => plan_simple(o, "C04", 120, 1500, |r| { let l = vcore::rng::Src::chance(r, 30); gen::gen_strat(r, &GenCfg::core(), l) }),
       "C02" => plan_par(o, "C02", 72, 720, true, |r| gen::gen_any(r, &GenCfg::core())),
       "C05" => plan_par(o, "C05", 96, 960, false, |r| gen::gen_rederive(r, &GenCfg::core())),
+      "C13" => plan_c13(o),
       "C03" => plan_simple(o, "C03", 120, 1500, |r| vcore::gen_lat::gen_lattice(r, &GenCfg::core())),
       other => panic!("no plan for property {other}"),
    }
@@ -80,6 +81,34 @@ fn plan_par(o: &Opts, prop: &str, quick: usize, thorough: usize, all_forms: bool
                meta: meta(&base, "run_par", Kind::AscentRunPar, false),
             });
          }
+      }
+      out.push(GroupSpec { members });
+   }
+   out
+}
+
+/// C13: every plain relation can be pushed into; serial and parallel forms
+fn plan_c13(o: &Opts) -> Vec<GroupSpec> {
+   let n = n_programs(o, 100, 800);
+   let mut out = vec![];
+   let mut i = 0u64;
+   while out.len() < n {
+      let mut r = rng_for("C13", o.seed, i);
+      i += 1;
+      // half of the programs are kept free of lattice observers so that lattice programs get monotone re-runs too
+      let mut cfg = GenCfg::core();
+      cfg.lat_observers = i % 2 == 0;
+      let mut prog = gen::gen_any(&mut r, &cfg);
+      for d in prog.rels.iter_mut() {
+         if !d.is_lattice && d.ds.is_none() {
+            d.is_input = true;
+         }
+      }
+      let base = format!("C13-s{}-{}", o.seed, i - 1);
+      let mut members =
+         vec![MemberSpec { prog: prog.clone(), opts: PrintOpts::plain(Kind::Ascent), meta: meta(&base, "ser", Kind::Ascent, true) }];
+      if gen::par_rejects(&prog).is_none() && i % 2 == 0 {
+         members.push(MemberSpec { prog: prog.clone(), opts: PrintOpts::plain(Kind::AscentPar), meta: meta(&base, "par", Kind::AscentPar, false) });
       }
       out.push(GroupSpec { members });
    }
